@@ -577,6 +577,7 @@ def generate(ctx):
         if src["kind"] == "presorted_w" and rng.random() < 0.85:
             # the interesting path: set_index on the already ordered column (must shuffle iff a run of equal keys
             # crosses a partition boundary), then at most one more step that relies on the published divisions
-            first = ["set_index_sorted"] if rng.random() < 0.35 else ["set_index", None]
+            first = (["set_index_sorted"] if rng.random() < 0.3
+                     else ["set_index", None] + ([rng.randint(1, 6)] if rng.random() < 0.35 else []))
             ops = [first] + [o for o in ops[:1] if o[0] in ("loc_slice", "loc_list", "loc_elem", "partitions", "repartition_n", "assign")]
         yield "pipeline", {"src": src, "ops": ops}
